@@ -384,6 +384,8 @@ class Exec:
         """Python truthiness -> bool or z3 Bool."""
         if isinstance(v, bool):
             return v
+        if type(v).__name__ == "UnknownAttr":
+            raise Unsupported("truth value of %r" % (v,))
         if v is None:
             return False
         if isz(v):
@@ -628,6 +630,8 @@ class Exec:
 
     def apply_binop(self, op, a, b, node, st):
         self.at(node, st)
+        if type(a).__name__ == "UnknownAttr" or type(b).__name__ == "UnknownAttr":
+            raise Unsupported("arithmetic with %r" % (a if type(a).__name__ == "UnknownAttr" else b,))
         hk = self.hooks.get("binop")
         if hk is not None:
             r = hk(self, st, op, a, b)
@@ -780,6 +784,9 @@ class Exec:
             r = hk(self, st, op, a, b)
             if r is not NotImplemented:
                 return r
+        if type(a).__name__ == "UnknownAttr" or type(b).__name__ == "UnknownAttr":
+            # the VALUE of an attribute the contract's stub does not model: nothing can be said about it (not even "is None")
+            raise Unsupported("comparison with %r" % (a if type(a).__name__ == "UnknownAttr" else b,))
         if isinstance(op, (ast.Is, ast.IsNot)):
             for x, y in ((a, b), (b, a)):
                 if hasattr(x, "is_none") and y is None:
